@@ -473,6 +473,8 @@ class PyEval(MiniEval):
                 return recv.pop(*A())
             if isinstance(recv, dict) and m == "copy" and not node.args:
                 return dict(recv)
+            if isinstance(recv, dict) and m == "get" and 1 <= len(node.args) <= 2 and not node.keywords:
+                return recv.get(*A())
             if isinstance(recv, dict) and m == "update" and len(node.args) == 1 and isinstance(A()[0], dict) and not node.keywords:
                 recv.update(A()[0])
                 return None
